@@ -7,16 +7,21 @@ Model: `Aiorpcx.C02` (`Model.lean`) mirrors `_receive_request_batch` / `item_sen
 `_send_result` / the request branch of `receive_message` of `aiorpcx/jsonrpc.py` and the
 send-once discipline of `RPCSession._throttled_request`.
 
-`replies max inc encLen ms calls` is the list of batch messages that leave the connection for a
+`replies inc encLen ms calls` is the list of batch messages that leave the connection for a
 received batch with composition `ms` when the request handlers deliver their results in the
-order `calls`.  A delivery is `(member index, result)` only: the id an entry is sent under is the
+order `calls`.  A delivery is `(member index, result, limit)`: `limit` is the value the public,
+dynamically settable attribute `max_response_size` has **at the moment the result is supplied**
+(the code reads it inside `item_send_result` / `_send_result`; nothing created at receipt holds
+a limit - the variant that reads it once at receipt is refuted: `limit_at_receipt_refuted`).
+A delivery carries no id: the id an entry is sent under is the
 one the member's item was bound to when `_receive_request_batch` created it
 (`partial(item_send_result, request_id)`), so "entry `k` carries member `k`'s own id" is a
 theorem about the model (`boundId_scan`), not a hypothesis; `late_binding_refuted` shows the
 theorems exclude a closure that captures the loop variable instead.
 
 All theorems are quantified over every composition, every completion order, every result, every
-id, every `max`, `inc`, `encLen`.
+id, every **schedule of limits** (one per delivery, changing freely between deliveries: lowered,
+raised, 0 <-> positive), every `inc`, `encLen`.
 -/
 namespace Aiorpcx.C02
 open List
@@ -46,10 +51,10 @@ theorem deliveries_bound (ms : List Mem) (calls : List (Call R))
   obtain ⟨id, hid⟩ := lookupId_isSome (l := reqMembers 0 ms) hm
   exact ⟨id, by rw [boundId_scan]; exact hid⟩
 
-theorem entriesFrom_get (max inc : Nat) (encLen : Id → R → Nat) :
+theorem entriesFrom_get (inc : Nat) (encLen : Id → R → Nat) :
     ∀ (cs : List (BCall R)) (s k : Nat) (hk : k < cs.length),
-      (entriesFrom max inc encLen s cs)[k]? = some (.res (cs[k]).1 (cs[k]).2.1 (cs[k]).2.2) ∨
-      (entriesFrom max inc encLen s cs)[k]? = some (.big (cs[k]).1 (cs[k]).2.1)
+      (entriesFrom inc encLen s cs)[k]? = some (.res (cs[k]).1 (cs[k]).2.1 (cs[k]).2.2.1) ∨
+      (entriesFrom inc encLen s cs)[k]? = some (.big (cs[k]).1 (cs[k]).2.1)
   | [], _, _, hk => by simp at hk
   | c :: cs, s, 0, _ => by
     simp only [entriesFrom, getElem?_cons_zero, getElem_cons_zero]
@@ -58,7 +63,7 @@ theorem entriesFrom_get (max inc : Nat) (encLen : Id → R → Nat) :
     · exact Or.inl rfl
   | c :: cs, s, k + 1, hk => by
     simp only [entriesFrom, getElem?_cons_succ, getElem_cons_succ]
-    exact entriesFrom_get max inc encLen cs _ k (by simpa using hk)
+    exact entriesFrom_get inc encLen cs _ k (by simpa using hk)
 
 /-- **batch_one_reply.**  A batch with at least one request member, whose request members
     deliver their results in **any order** `calls` (each request member's index exactly once):
@@ -68,20 +73,20 @@ theorem entriesFrom_get (max inc : Nat) (encLen : Id → R → Nat) :
     #requests + #invalid; and entry `k` of `tail` answers the `k`-th completed member: it is
     that member's result (or the "too large" error) **under the id that member carries in the
     composition** (`ms[m]? = some (.req id)`) - equal ids of different members included. -/
-theorem batch_one_reply (max inc : Nat) (encLen : Id → R → Nat) (ms : List Mem)
+theorem batch_one_reply (inc : Nat) (encLen : Id → R → Nat) (ms : List Mem)
     (calls : List (Call R)) (hperm : calls.map (·.1) ~ reqIdx ms)
     (hne : reqMembers 0 ms ≠ []) :
     ∃ (b : ReqBatch R) (its : List Item) (es tail : List (Entry R)),
       receiveBatch ms = .items its b ∧
-      runCalls max inc encLen its b calls = replicate (calls.length - 1) none ++ [some es] ∧
-      replies max inc encLen ms calls = [es] ∧
+      runCalls inc encLen its b calls = replicate (calls.length - 1) none ++ [some es] ∧
+      replies inc encLen ms calls = [es] ∧
       es = errEntries 0 ms ++ tail ∧
-      tail = entriesFrom max inc encLen 0 (resolve its calls) ∧
+      tail = entriesFrom inc encLen 0 (resolve its calls) ∧
       es.length = (reqMembers 0 ms).length + (errEntries (R := R) 0 ms).length ∧
       tail.length = calls.length ∧
       ∀ (k : Nat) (hk : k < calls.length), ∃ id,
         ms[(calls[k]).1]? = some (.req id) ∧
-        (tail[k]? = some (.res (calls[k]).1 id (calls[k]).2) ∨
+        (tail[k]? = some (.res (calls[k]).1 id (calls[k]).2.1) ∨
          tail[k]? = some (.big (calls[k]).1 id)) := by
   have hlen : calls.length = (reqMembers 0 ms).length := by
     have := hperm.length_eq
@@ -96,10 +101,10 @@ theorem batch_one_reply (max inc : Nat) (encLen : Id → R → Nat) (ms : List M
     intro h
     rw [h] at rl
     exact hcne (List.length_eq_zero_iff.1 rl.symm)
-  have hrun := runBound_complete max inc encLen (resolve (scan (R := R) 0 ms).1 calls)
+  have hrun := runBound_complete inc encLen (resolve (scan (R := R) 0 ms).1 calls)
     ⟨errEntries 0 ms, (reqMembers 0 ms).length + (errEntries (R := R) 0 ms).length, 0⟩ hrne
     (by simp only [rl]; omega)
-  rw [← runCalls_resolved max inc encLen _ calls _ hb, rl] at hrun
+  rw [← runCalls_resolved inc encLen _ calls _ hb, rl] at hrun
   refine ⟨_, _, _, _, hrecv, hrun, ?_, rfl, rfl, ?_, ?_, ?_⟩
   · simp only [replies, hrecv, hrun]
     simp [filterMap_append, filterMap_replicate_of_none]
@@ -119,33 +124,33 @@ theorem batch_one_reply (max inc : Nat) (encLen : Id → R → Nat) (ms : List M
     refine ⟨((resolve (scan (R := R) 0 ms).1 calls)[k]).2.1, ?_, ?_⟩
     · rw [hck]; simpa using hmem.2
     · rw [hck]
-      exact entriesFrom_get max inc encLen _ 0 k hk'
+      exact entriesFrom_get inc encLen _ 0 k hk'
 
 /-- non-vacuity of `batch_one_reply`: `[invalid, req 7, notif, req 7, req "a"]` (duplicate ids),
     completed in the order 4, 1, 3: one reply `[err₀, res₄, res₁, res₃]`, ids in that order. -/
 example :
     let ms : List Mem := [.invalid .null, .req (.int 7), .notif, .req (.int 7), .req (.str [97])]
-    let calls : List (Call Nat) := [(4, 40), (1, 10), (3, 30)]
+    let calls : List (Call Nat) := [(4, 40, 0), (1, 10, 0), (3, 30, 0)]
     calls.map (·.1) ~ reqIdx ms ∧
-    replies 0 2 (fun _ _ => 5) ms calls =
+    replies 2 (fun _ _ => 5) ms calls =
       [[.err 0 .null, .res 4 (.str [97]) 40, .res 1 (.int 7) 10, .res 3 (.int 7) 30]] := by
   decide
 
-theorem runCalls_incomplete (max inc : Nat) (encLen : Id → R → Nat) (its : List Item) :
+theorem runCalls_incomplete (inc : Nat) (encLen : Id → R → Nat) (its : List Item) :
     ∀ (cs : List (Call R)) (b : ReqBatch R), b.parts.length + cs.length < b.count →
-      runCalls max inc encLen its b cs = replicate cs.length none
+      runCalls inc encLen its b cs = replicate cs.length none
   | [], _, _ => rfl
   | c :: cs, b, hc => by
     simp only [length_cons] at hc
     cases hid : boundId its c.1 with
     | none =>
-      have ih := runCalls_incomplete max inc encLen its cs b (by omega)
+      have ih := runCalls_incomplete inc encLen its cs b (by omega)
       simp only [runCalls, hid, ih, length_cons, replicate_succ]
     | some id =>
-      have ih := runCalls_incomplete max inc encLen its cs (sendResult max inc encLen b c.1 id c.2).1
+      have ih := runCalls_incomplete inc encLen its cs (sendResult inc encLen b c.1 id c.2.1 c.2.2).1
         (by simp only [sendResult, length_append, length_cons, length_nil]; omega)
-      have hne : ((b.parts ++ [if (b.size + encLen id c.2 + inc > max && max > 0) = true
-          then Entry.big c.1 id else Entry.res c.1 id c.2]).length == b.count) = false := by
+      have hne : ((b.parts ++ [if (b.size + encLen id c.2.1 + inc > c.2.2 && c.2.2 > 0) = true
+          then Entry.big c.1 id else Entry.res c.1 id c.2.1]).length == b.count) = false := by
         simp only [length_append, length_cons, length_nil, beq_eq_false_iff_ne]; omega
       simp only [runCalls, hid, ih, length_cons, replicate_succ]
       simp only [sendResult, hne, Bool.false_eq_true, ↓reduceIte]
@@ -153,35 +158,35 @@ theorem runCalls_incomplete (max inc : Nat) (encLen : Id → R → Nat) (its : L
 /-- **no_early_reply.**  While at least one request member has not delivered its result, no
     call of `send_result` returns a message, whatever has been delivered so far: the batch
     response is sent only when every member has its result. -/
-theorem no_early_reply (max inc : Nat) (encLen : Id → R → Nat) (ms : List Mem)
+theorem no_early_reply (inc : Nat) (encLen : Id → R → Nat) (ms : List Mem)
     (calls : List (Call R)) (hne : reqMembers 0 ms ≠ [])
     (hlt : calls.length < (reqMembers 0 ms).length) :
-    replies max inc encLen ms calls = [] := by
+    replies inc encLen ms calls = [] := by
   have hrecv := receiveBatch_of_req (R := R) ms hne
   simp only [replies, hrecv]
-  rw [runCalls_incomplete _ _ _ _ _ _ (by simp only; omega)]
+  rw [runCalls_incomplete _ _ _ _ _ (by simp only; omega)]
   simp [filterMap_replicate_of_none]
 
 /-- non-vacuity of `no_early_reply`: two of three request members have delivered -/
 example :
-    replies 0 2 (fun _ (_ : Nat) => 5)
-      [.req (.int 1), .invalid .null, .req (.int 2), .req (.int 3)] [(3, 30), (0, 10)]
+    replies 2 (fun _ (_ : Nat) => 5)
+      [.req (.int 1), .invalid .null, .req (.int 2), .req (.int 3)] [(3, 30, 0), (0, 10, 7)]
       = [] := by decide
 
 /-- **duplicate_ids_ok.**  Entries are bound to members, not to id values: whatever ids the
     members carry (no injectivity assumed - equal ids included), the batch response contains
     **exactly one** entry answering each request member, and that entry carries the id of that
     very member. -/
-theorem duplicate_ids_ok (max inc : Nat) (encLen : Id → R → Nat) (ms : List Mem)
+theorem duplicate_ids_ok (inc : Nat) (encLen : Id → R → Nat) (ms : List Mem)
     (calls : List (Call R)) (hperm : calls.map (·.1) ~ reqIdx ms)
     (hne : reqMembers 0 ms ≠ []) :
-    ∃ es tail : List (Entry R), replies max inc encLen ms calls = [es] ∧
+    ∃ es tail : List (Entry R), replies inc encLen ms calls = [es] ∧
       es = errEntries 0 ms ++ tail ∧
       tail.map Entry.member ~ reqIdx ms ∧
       (∀ m ∈ reqIdx ms, (tail.map Entry.member).count m = 1) ∧
       ∀ e ∈ tail, ms[e.member]? = some (.req e.id) := by
   obtain ⟨b, its, es, tail, _, _, hrep, hes, _, _, htl, hk⟩ :=
-    batch_one_reply max inc encLen ms calls hperm hne
+    batch_one_reply inc encLen ms calls hperm hne
   have hmem : tail.map Entry.member = calls.map (·.1) := by
     apply ext_getElem (by simp [htl])
     intro k h1 h2
@@ -209,9 +214,9 @@ theorem duplicate_ids_ok (max inc : Nat) (encLen : Id → R → Nat) (ms : List 
 /-- non-vacuity of `duplicate_ids_ok`: three members all with id 7 -/
 example :
     let ms : List Mem := [.req (.int 7), .req (.int 7), .req (.int 7)]
-    let calls : List (Call Nat) := [(2, 20), (0, 0), (1, 10)]
+    let calls : List (Call Nat) := [(2, 20, 0), (0, 0, 0), (1, 10, 0)]
     calls.map (·.1) ~ reqIdx ms ∧
-    replies 0 2 (fun _ _ => 5) ms calls =
+    replies 2 (fun _ _ => 5) ms calls =
       [[.res 2 (.int 7) 20, .res 0 (.int 7) 0, .res 1 (.int 7) 10]] := by decide
 
 /-- **late_binding_refuted.**  A closure capturing the loop variable `request_id` (instead of
@@ -222,9 +227,9 @@ example :
 theorem late_binding_refuted :
     ∃ (ms : List Mem) (calls : List (Call Nat)) (es : List (Entry Nat)),
       calls.map (·.1) ~ reqIdx ms ∧
-      repliesLate 0 2 (fun _ _ => 5) ms calls = [es] ∧
+      repliesLate 2 (fun _ _ => 5) ms calls = [es] ∧
       ∃ e ∈ es, ms[e.member]? ≠ some (.req e.id) :=
-  ⟨[.req (.int 1), .req (.int 2)], [(0, 10), (1, 20)],
+  ⟨[.req (.int 1), .req (.int 2)], [(0, 10, 0), (1, 20, 0)],
     [.res 0 (.int 2) 10, .res 1 (.int 2) 20], by decide, by decide,
     .res 0 (.int 2) 10, by decide, by decide⟩
 
@@ -236,10 +241,10 @@ def forBatch {α : Type} (i : Nat) (l : List (Nat × α)) : List α :=
     their deliveries interleaved in **any** way, what the `send_result` calls of batch `i` return
     is exactly what they would return if batch `i` were alone and received the same deliveries
     in the same relative order: no state is shared between batches. -/
-theorem batches_independent (max inc : Nat) (encLen : Id → R → Nat) (i : Nat) :
+theorem batches_independent (inc : Nat) (encLen : Id → R → Nat) (i : Nat) :
     ∀ (ds : List (Nat × Call R)) (bs : List (List Item × ReqBatch R)) (its : List Item)
       (b : ReqBatch R), bs[i]? = some (its, b) →
-      forBatch i (runMulti max inc encLen bs ds) = runCalls max inc encLen its b (forBatch i ds)
+      forBatch i (runMulti inc encLen bs ds) = runCalls inc encLen its b (forBatch i ds)
   | [], _, _, _, _ => rfl
   | (j, c) :: ds, bs, its, b, hb => by
     by_cases hd : j = i
@@ -251,13 +256,13 @@ theorem batches_independent (max inc : Nat) (encLen : Id → R → Nat) (i : Nat
         · rw [getElem?_eq_none h] at hb; cases hb
       cases hid : boundId its c.1 with
       | none =>
-        have ih := batches_independent max inc encLen j ds bs its b hb
+        have ih := batches_independent inc encLen j ds bs its b hb
         simp only [forBatch] at ih
         simp only [runMulti, hb, hid, forBatch, filterMap_cons, ↓reduceIte, runCalls, ih]
       | some id =>
-        have hset : (bs.set j (its, (sendResult max inc encLen b c.1 id c.2).1))[j]? =
-            some (its, (sendResult max inc encLen b c.1 id c.2).1) := getElem?_set_self hlt
-        have ih := batches_independent max inc encLen j ds _ its _ hset
+        have hset : (bs.set j (its, (sendResult inc encLen b c.1 id c.2.1 c.2.2).1))[j]? =
+            some (its, (sendResult inc encLen b c.1 id c.2.1 c.2.2).1) := getElem?_set_self hlt
+        have ih := batches_independent inc encLen j ds _ its _ hset
         simp only [forBatch] at ih
         simp only [runMulti, hb, hid, forBatch, filterMap_cons, ↓reduceIte, runCalls, ih]
     · -- a delivery to another batch leaves batch i as it is
@@ -266,18 +271,18 @@ theorem batches_independent (max inc : Nat) (encLen : Id → R → Nat) (i : Nat
       rw [hskip]
       cases hbd : bs[j]? with
       | none =>
-        have ih := batches_independent max inc encLen i ds bs its b hb
+        have ih := batches_independent inc encLen i ds bs its b hb
         simp only [forBatch] at ih ⊢
         simp only [runMulti, hbd, filterMap_cons, hd, ↓reduceIte, ih]
       | some ib =>
         cases hid : boundId ib.1 c.1 with
         | none =>
-          have ih := batches_independent max inc encLen i ds bs its b hb
+          have ih := batches_independent inc encLen i ds bs its b hb
           simp only [forBatch] at ih ⊢
           simp only [runMulti, hbd, hid, filterMap_cons, hd, ↓reduceIte, ih]
         | some id =>
-          have ih := batches_independent max inc encLen i ds
-            (bs.set j (ib.1, (sendResult max inc encLen ib.2 c.1 id c.2).1)) its b
+          have ih := batches_independent inc encLen i ds
+            (bs.set j (ib.1, (sendResult inc encLen ib.2 c.1 id c.2.1 c.2.2).1)) its b
             (by rw [getElem?_set_ne hd]; exact hb)
           simp only [forBatch] at ih ⊢
           simp only [runMulti, hbd, hid, filterMap_cons, hd, ↓reduceIte, ih]
@@ -287,7 +292,7 @@ theorem batches_independent (max inc : Nat) (encLen : Id → R → Nat) (i : Nat
 example :
     let b0 : List Item × ReqBatch Nat := ([.request 0 (.int 7), .request 1 (.int 7)], ⟨[], 2, 0⟩)
     let b1 : List Item × ReqBatch Nat := ([.request 1 (.int 7)], ⟨[.err 0 .null], 2, 0⟩)
-    runMulti 0 2 (fun _ _ => 5) [b0, b1] [(0, 1, 10), (1, 1, 20), (0, 0, 30)] =
+    runMulti 2 (fun _ _ => 5) [b0, b1] [(0, 1, 10, 0), (1, 1, 20, 0), (0, 0, 30, 0)] =
       [(0, none), (1, some [.err 0 .null, .res 1 (.int 7) 20]),
        (0, some [.res 1 (.int 7) 10, .res 0 (.int 7) 30])] := by decide
 
@@ -302,17 +307,17 @@ theorem all_notif_members (R : Type) : ∀ (ms : List Mem), (∀ m ∈ ms, m = .
 /-- **batch_notifications_only_silent.**  A batch holding only notifications produces no
     response, ever: nothing is raised, no item has a `send_result` (so whatever the session
     "delivers" is ignored), nothing is returned. -/
-theorem batch_notifications_only_silent (max inc : Nat) (encLen : Id → R → Nat) (ms : List Mem)
+theorem batch_notifications_only_silent (inc : Nat) (encLen : Id → R → Nat) (ms : List Mem)
     (h : ∀ m ∈ ms, m = .notif) (calls : List (Call R)) :
     reqMembers 0 ms = [] ∧ (∀ k, boundId (scan (R := R) 0 ms).1 k = none) ∧
-    replies max inc encLen ms calls = [] := by
+    replies inc encLen ms calls = [] := by
   obtain ⟨hreq, herr⟩ := all_notif_members R ms h 0
   obtain ⟨h1, h2, _⟩ := scan_spec (R := R) 0 ms
   have hb : ∀ k, boundId (scan (R := R) 0 ms).1 k = none := by
     intro k; rw [boundId_scan, hreq]; rfl
   refine ⟨hreq, hb, ?_⟩
   have hrun : ∀ (cs : List (Call R)) (b : ReqBatch R),
-      runCalls max inc encLen (scan (R := R) 0 ms).1 b cs = replicate cs.length none := by
+      runCalls inc encLen (scan (R := R) 0 ms).1 b cs = replicate cs.length none := by
     intro cs
     induction cs with
     | nil => intro b; rfl
@@ -322,15 +327,15 @@ theorem batch_notifications_only_silent (max inc : Nat) (encLen : Id → R → N
   simp [filterMap_replicate_of_none]
 
 /-- non-vacuity: two notifications, and a (never happening) delivery to one of them -/
-example : replies 0 2 (fun _ (_ : Nat) => 5) [.notif, .notif] [(0, 1)] = [] := by decide
+example : replies 2 (fun _ (_ : Nat) => 5) [.notif, .notif] [(0, 1, 0)] = [] := by decide
 
 /-- **batch_all_invalid_immediate.**  A batch all of whose members are invalid is answered at
     once (the raised `ProtocolError` carries the batch) with one error entry per member, in
     member order, each under the id recovered from that member. -/
-theorem batch_all_invalid_immediate (max inc : Nat) (encLen : Id → R → Nat) (ms : List Mem)
+theorem batch_all_invalid_immediate (inc : Nat) (encLen : Id → R → Nat) (ms : List Mem)
     (hne : ms ≠ []) (h : ∀ m ∈ ms, ∃ id, m = .invalid id) (calls : List (Call R)) :
     receiveBatch (R := R) ms = .errorBatch (errEntries 0 ms) ∧
-    replies max inc encLen ms calls = [errEntries 0 ms] ∧
+    replies inc encLen ms calls = [errEntries 0 ms] ∧
     (errEntries (R := R) 0 ms).length = ms.length := by
   have hreq : ∀ (l : List Mem) (i : Nat), (∀ m ∈ l, ∃ id, m = .invalid id) →
       reqMembers i l = [] ∧ notifCount l = 0 ∧ (errEntries (R := R) i l).length = l.length := by
@@ -354,7 +359,7 @@ theorem batch_all_invalid_immediate (max inc : Nat) (encLen : Id → R → Nat) 
   exact ⟨hr, by simp [replies, hr], c⟩
 
 /-- non-vacuity of `batch_all_invalid_immediate` -/
-example : replies 0 2 (fun _ (_ : Nat) => 5) [.invalid .null, .invalid (.int 3)] []
+example : replies 2 (fun _ (_ : Nat) => 5) [.invalid .null, .invalid (.int 3)] []
     = [[.err 0 .null, .err 1 (.int 3)]] := by decide
 
 /-! ## F8: notifications + invalid members, no request -/
@@ -362,26 +367,26 @@ example : replies 0 2 (fun _ (_ : Nat) => 5) [.invalid .null, .invalid (.int 3)]
 /-- the full statement of "exactly one batch response": whenever the batch calls for entries
     (a request or an invalid member), exactly one batch message is sent and it contains them -/
 def batch_reply_full (R : Type) : Prop :=
-  ∀ (max inc : Nat) (encLen : Id → R → Nat) (ms : List Mem) (calls : List (Call R)),
+  ∀ (inc : Nat) (encLen : Id → R → Nat) (ms : List Mem) (calls : List (Call R)),
     calls.map (·.1) ~ reqIdx ms →
     (reqMembers 0 ms ≠ [] ∨ errEntries (R := R) 0 ms ≠ []) →
-    ∃ es, replies max inc encLen ms calls = [es] ∧
+    ∃ es, replies inc encLen ms calls = [es] ∧
       es.length = (reqMembers 0 ms).length + (errEntries (R := R) 0 ms).length
 
 /-- **batch_notif_invalid (F8)**: the request batch `[notification, invalid]` is never answered —
     the error entry for the invalid member is lost.  The full statement fails. -/
 theorem batch_reply_full_fails : ¬ batch_reply_full Nat := by
   intro h
-  obtain ⟨es, h1, _⟩ := h 0 2 (fun _ _ => 0) [.notif, .invalid .null] [] (by decide) (by decide)
-  have h0 : replies 0 2 (fun _ (_ : Nat) => 0) [.notif, .invalid .null] [] = [] := by decide
+  obtain ⟨es, h1, _⟩ := h 2 (fun _ _ => 0) [.notif, .invalid .null] [] (by decide) (by decide)
+  have h0 : replies 2 (fun _ (_ : Nat) => 0) [.notif, .invalid .null] [] = [] := by decide
   rw [h0] at h1
   cases h1
 
 /-- the exact family on which it fails: no request, at least one notification and at least one
     invalid member.  Then nothing is ever sent. -/
-theorem batch_notif_invalid_silent (max inc : Nat) (encLen : Id → R → Nat) (ms : List Mem)
+theorem batch_notif_invalid_silent (inc : Nat) (encLen : Id → R → Nat) (ms : List Mem)
     (_hreq : reqMembers 0 ms = []) (hn : 0 < notifCount ms) :
-    replies max inc encLen ms ([] : List (Call R)) = [] := by
+    replies inc encLen ms ([] : List (Call R)) = [] := by
   obtain ⟨_, _, h3⟩ := scan_spec (R := R) 0 ms
   have : (scan (R := R) 0 ms).1.isEmpty = false := by
     cases he : (scan (R := R) 0 ms).1.isEmpty with
@@ -392,18 +397,18 @@ theorem batch_notif_invalid_silent (max inc : Nat) (encLen : Id → R → Nat) (
 /-- non-vacuity: `[notif, invalid, notif]` is silent although an error entry is called for;
     `[invalid, invalid]` and `[req, invalid]` (outside the family) get their one reply. -/
 example :
-    replies 0 2 (fun _ (_ : Nat) => 5) [.notif, .invalid (.int 3), .notif] [] = [] ∧
-    replies 0 2 (fun _ (_ : Nat) => 5) [.invalid .null, .invalid (.int 3)] []
+    replies 2 (fun _ (_ : Nat) => 5) [.notif, .invalid (.int 3), .notif] [] = [] ∧
+    replies 2 (fun _ (_ : Nat) => 5) [.invalid .null, .invalid (.int 3)] []
       = [[.err 0 .null, .err 1 (.int 3)]] ∧
-    replies 0 2 (fun _ (_ : Nat) => 5) [.req (.int 1), .invalid (.int 3)] [(0, 10)]
+    replies 2 (fun _ (_ : Nat) => 5) [.req (.int 1), .invalid (.int 3)] [(0, 10, 0)]
       = [[.err 1 (.int 3), .res 0 (.int 1) 10]] := by decide
 
 /-- **batch_reply_partial.**  Outside that family the full statement holds. -/
-theorem batch_reply_partial (max inc : Nat) (encLen : Id → R → Nat) (ms : List Mem)
+theorem batch_reply_partial (inc : Nat) (encLen : Id → R → Nat) (ms : List Mem)
     (calls : List (Call R)) (hperm : calls.map (·.1) ~ reqIdx ms)
     (hsome : reqMembers 0 ms ≠ [] ∨ errEntries (R := R) 0 ms ≠ [])
     (hside : ¬ (reqMembers 0 ms = [] ∧ 0 < notifCount ms)) :
-    ∃ es, replies max inc encLen ms calls = [es] ∧
+    ∃ es, replies inc encLen ms calls = [es] ∧
       es.length = (reqMembers 0 ms).length + (errEntries (R := R) 0 ms).length := by
   by_cases hreq : reqMembers 0 ms = []
   · have hn : notifCount ms = 0 := Nat.eq_zero_of_not_pos (fun h => hside ⟨hreq, h⟩)
@@ -419,118 +424,261 @@ theorem batch_reply_partial (max inc : Nat) (encLen : Id → R → Nat) (ms : Li
       | cons _ _ => rfl
     refine ⟨errEntries 0 ms, ?_, by simp [hreq]⟩
     simp [replies, receiveBatch, hemp, h1, hparts]
-  · obtain ⟨_, _, es, _, _, _, h3, _, _, h5, _⟩ := batch_one_reply max inc encLen ms calls hperm hreq
+  · obtain ⟨_, _, es, _, _, _, h3, _, _, h5, _⟩ := batch_one_reply inc encLen ms calls hperm hreq
     exact ⟨es, h3, h5⟩
 
 /-! ## single messages -/
 
 /-- **single_request_one_reply.**  A single well-formed request is answered by exactly one
     message, under the id the request carries (the id `receive_message` bound into its
-    `send_result`), whatever the handler delivers: the result if the limit is 0 or the encoded
-    response is not larger than the limit, otherwise the "too large" error - same id. -/
-theorem single_request_one_reply (max : Nat) (encLen : Id → R → Nat) (id : Id) (r : R) :
-    ∃ e, repliesSingle max encLen (.req id) r = [e] ∧ e.id = id ∧
-      ((max = 0 ∨ encLen id r ≤ max) → e = .res 0 id r) ∧
-      ((0 < max ∧ max < encLen id r) → e = .big 0 id) := by
-  refine ⟨sendResultSingle max encLen id r, rfl, ?_, ?_, ?_⟩
+    `send_result`), whatever the handler delivers and whatever `max_response_size` was when the
+    request was received: with `lim` the limit in force **when the result is supplied**, the
+    reply is the result if `lim` is 0 or the encoded response is not larger than `lim`,
+    otherwise the "too large" error - same id. -/
+theorem single_request_one_reply (encLen : Id → R → Nat) (id : Id) (r : R) (lim : Nat) :
+    ∃ e, repliesSingle encLen (.req id) r lim = [e] ∧ e.id = id ∧
+      ((lim = 0 ∨ encLen id r ≤ lim) → e = .res 0 id r) ∧
+      ((0 < lim ∧ lim < encLen id r) → e = .big 0 id) := by
+  refine ⟨sendResultSingle lim encLen id r, rfl, ?_, ?_, ?_⟩
   · unfold sendResultSingle; split <;> rfl
   · rintro (h | h)
     · subst h; simp [sendResultSingle]
-    · have : ¬ (encLen id r > max) := by omega
+    · have : ¬ (encLen id r > lim) := by omega
       simp [sendResultSingle, this]
   · rintro ⟨h1, h2⟩
     simp [sendResultSingle, h1, h2]
 
 /-- **single_notification_silent.**  Nothing is ever emitted for a single notification: the
     item has no `send_result`, whatever its handler returns is dropped. -/
-theorem single_notification_silent (max : Nat) (encLen : Id → R → Nat) (r : R) :
-    repliesSingle max encLen .notif r = [] ∧
+theorem single_notification_silent (encLen : Id → R → Nat) (r : R) (lim : Nat) :
+    repliesSingle encLen .notif r lim = [] ∧
     receiveSingle .notif = .item (.notification 0) ∧ boundId [.notification 0] 0 = none :=
   ⟨rfl, rfl, rfl⟩
 
 /-- an invalid single message is answered at once by one error response under the recovered
     id (not a clause of the property text: model/implementation comparison only) -/
-theorem single_invalid_error_reply (max : Nat) (encLen : Id → R → Nat) (id : Id) (r : R) :
-    repliesSingle max encLen (.invalid id) r = [.err 0 id] := rfl
+theorem single_invalid_error_reply (encLen : Id → R → Nat) (id : Id) (r : R) (lim : Nat) :
+    repliesSingle encLen (.invalid id) r lim = [.err 0 id] := rfl
 
 /-- non-vacuity: a 10-byte response is kept at limit 10 and replaced at limit 9 -/
 example :
-    repliesSingle 10 (fun _ (_ : Nat) => 10) (.req (.int 4)) 0 = [.res 0 (.int 4) 0] ∧
-    repliesSingle 9 (fun _ (_ : Nat) => 10) (.req (.int 4)) 0 = [.big 0 (.int 4)] ∧
-    repliesSingle 9 (fun _ (_ : Nat) => 10) .notif 0 = [] := by decide
+    repliesSingle (fun _ (_ : Nat) => 10) (.req (.int 4)) 0 10 = [.res 0 (.int 4) 0] ∧
+    repliesSingle (fun _ (_ : Nat) => 10) (.req (.int 4)) 0 9 = [.big 0 (.int 4)] ∧
+    repliesSingle (fun _ (_ : Nat) => 10) .notif 0 9 = [] := by decide
 
-/-! ## max_response_size -/
+/-! ## max_response_size
 
-/-- **oversize_single.**  The reply to a single request always carries the request's id; it is
-    the real result exactly when the limit is 0 (unlimited) or the encoded response is not larger
-    than the limit — otherwise it is the "too large" error response under the same id. -/
-theorem oversize_single (max : Nat) (encLen : Id → R → Nat) (id : Id) (r : R) :
-    (sendResultSingle max encLen id r).id = id ∧
-    ((max = 0 ∨ encLen id r ≤ max) → sendResultSingle max encLen id r = .res 0 id r) ∧
-    ((0 < max ∧ max < encLen id r) → sendResultSingle max encLen id r = .big 0 id) := by
+    `max_response_size` is "a public attribute intended to be settable dynamically"; the limit
+    that decides is the one **in force when the result is supplied** (`lim` of the delivery). -/
+
+/-- **oversize_single.**  `lim` = the value of `max_response_size` when `send_result` of a single
+    request is called (not when the request was received).  The reply always carries the
+    request's id; it is the real result exactly when `lim` is 0 (unlimited) or the encoded
+    response is not larger than `lim` — otherwise it is the "too large" error response under the
+    same id. -/
+theorem oversize_single (lim : Nat) (encLen : Id → R → Nat) (id : Id) (r : R) :
+    (sendResultSingle lim encLen id r).id = id ∧
+    ((lim = 0 ∨ encLen id r ≤ lim) → sendResultSingle lim encLen id r = .res 0 id r) ∧
+    ((0 < lim ∧ lim < encLen id r) → sendResultSingle lim encLen id r = .big 0 id) := by
   unfold sendResultSingle
   refine ⟨by split <;> rfl, ?_, ?_⟩
   · rintro (h | h)
     · subst h; simp
-    · have : ¬ (encLen id r > max) := by omega
+    · have : ¬ (encLen id r > lim) := by omega
       simp [this]
   · rintro ⟨h1, h2⟩
     simp [h1, h2]
 
 /-- **oversize_batch.**  In a batch response (`tail` of `batch_one_reply`), entry `j` of the
-    results part is the real result exactly while the *running size* (the lengths of the results
-    delivered so far, each plus `inc`) is within the limit (or the limit is 0); otherwise it is
-    the "too large" error.  Either way it carries member `j`'s id (`batch_one_reply`).  Note what
-    the running size does **not** contain: the error entries of invalid members, and the size
-    of the replacement entries themselves. -/
-theorem oversize_batch (max inc : Nat) (encLen : Id → R → Nat) (calls : List (BCall R)) (j : Nat)
-    (hj : j < (entriesFrom max inc encLen 0 calls).length) :
-    ((entriesFrom max inc encLen 0 calls)[j]).isReal =
-      (max == 0 || decide (sizeAfter inc encLen 0 (calls.take (j + 1)) ≤ max)) :=
-  entriesFrom_real max inc encLen calls 0 j hj
+    results part is the real result exactly when the *running size after delivery `j`* (the
+    lengths of the results delivered so far, each plus `inc` - whether they were kept or replaced)
+    is within **the limit in force at delivery `j`** (or that limit is 0); otherwise it is the
+    "too large" error.  The limits of the other deliveries play no role for entry `j`: this is
+    `size > self.max_response_size > 0` evaluated in call `j` with the cumulative size.  Either
+    way the entry carries member `j`'s id (`batch_one_reply`).  Note what the running size does
+    **not** contain: the error entries of invalid members, and the size of the replacement
+    entries themselves. -/
+theorem oversize_batch (inc : Nat) (encLen : Id → R → Nat) (calls : List (BCall R)) (j : Nat)
+    (hj : j < calls.length) :
+    ((entriesFrom inc encLen 0 calls)[j]'(by rw [length_entriesFrom]; exact hj)).isReal =
+      ((calls[j]).lim == 0 ||
+        decide (sizeAfter inc encLen 0 (calls.take (j + 1)) ≤ (calls[j]).lim)) :=
+  entriesFrom_real inc encLen calls 0 j hj
 
 /-- **oversize_entry_replaced** (what the text's clause says for one entry): an entry whose own
-    encoded response is larger than the limit is never the real result. -/
-theorem oversize_entry_replaced (max inc : Nat) (encLen : Id → R → Nat) (calls : List (BCall R))
-    (j : Nat) (hj : j < (entriesFrom max inc encLen 0 calls).length) (hmax : 0 < max)
-    (hbig : max < encLen (calls[j]'(by simpa [length_entriesFrom] using hj)).2.1
-      (calls[j]'(by simpa [length_entriesFrom] using hj)).2.2) :
-    ((entriesFrom max inc encLen 0 calls)[j]).isReal = false := by
-  rw [oversize_batch max inc encLen calls j hj]
-  have hjc : j < calls.length := by simpa [length_entriesFrom] using hj
-  have hge : encLen (calls[j]).2.1 (calls[j]).2.2 ≤ sizeAfter inc encLen 0 (calls.take (j + 1)) := by
+    encoded response is larger than the (positive) limit in force **when its result is
+    supplied** is never the real result - whatever the limit was when the batch was received or
+    at any other delivery. -/
+theorem oversize_entry_replaced (inc : Nat) (encLen : Id → R → Nat) (calls : List (BCall R))
+    (j : Nat) (hj : j < calls.length) (hlim : 0 < (calls[j]).lim)
+    (hbig : (calls[j]).lim < encLen (calls[j]).2.1 (calls[j]).2.2.1) :
+    ((entriesFrom inc encLen 0 calls)[j]'(by rw [length_entriesFrom]; exact hj)).isReal
+      = false := by
+  rw [oversize_batch inc encLen calls j hj]
+  have hge : encLen (calls[j]).2.1 (calls[j]).2.2.1 ≤
+      sizeAfter inc encLen 0 (calls.take (j + 1)) := by
     unfold sizeAfter
     have hmem : calls[j] ∈ calls.take (j + 1) := by
       rw [List.mem_take_iff_getElem]
       exact ⟨j, by omega, rfl⟩
-    have := le_sum_of_mem (l := (calls.take (j + 1)).map fun c => encLen c.2.1 c.2.2 + inc)
-      (x := encLen (calls[j]).2.1 (calls[j]).2.2 + inc)
+    have := le_sum_of_mem (l := (calls.take (j + 1)).map fun c => encLen c.2.1 c.2.2.1 + inc)
+      (x := encLen (calls[j]).2.1 (calls[j]).2.2.1 + inc)
       (mem_map.2 ⟨calls[j], hmem, rfl⟩)
     omega
-  have h0 : (max == 0) = false := by simp; omega
+  have h0 : ((calls[j]).lim == 0) = false := by simp; omega
   simp [h0]; omega
 
-/-- non-vacuity of `oversize_batch` / `oversize_single`: results of 10 bytes each, increment 2,
-    limit 25: the first two entries fit (12, 24), the third (36) is replaced and keeps its id; a
-    single 10-byte response is kept at limit 10 and replaced at limit 9. -/
+/-- non-vacuity of `oversize_batch` / `oversize_single`: results of 10 bytes each, increment 2.
+    Constant limit 25: the first two entries fit (12, 24), the third (36) is replaced and keeps
+    its id.  Changing limit: unlimited at the first delivery, 20 at the second (running size 24:
+    replaced), raised to 40 at the third (running size 36: kept - the running size keeps the
+    length of what was replaced, the limit is the one of the moment).  A single 10-byte response
+    is kept at limit 10 and replaced at limit 9. -/
 example :
-    entriesFrom 25 2 (fun _ (_ : Nat) => 10) 0 [(2, .int 7, 1), (0, .str [97], 2), (1, .int 7, 3)]
+    entriesFrom 2 (fun _ (_ : Nat) => 10) 0
+        [(2, .int 7, 1, 25), (0, .str [97], 2, 25), (1, .int 7, 3, 25)]
       = [.res 2 (.int 7) 1, .res 0 (.str [97]) 2, .big 1 (.int 7)] ∧
+    entriesFrom 2 (fun _ (_ : Nat) => 10) 0
+        [(2, .int 7, 1, 0), (0, .str [97], 2, 20), (1, .int 7, 3, 40)]
+      = [.res 2 (.int 7) 1, .big 0 (.str [97]), .res 1 (.int 7) 3] ∧
     sendResultSingle 10 (fun _ (_ : Nat) => 10) (.int 4) 0 = .res 0 (.int 4) 0 ∧
     sendResultSingle 9 (fun _ (_ : Nat) => 10) (.int 4) 0 = .big 0 (.int 4) := by decide
+
+/-! ### the bridge from a received composition to its resolved deliveries -/
+
+theorem resolve_get (its : List Item) :
+    ∀ (cs : List (Call R)), (∀ c ∈ cs, ∃ id, boundId its c.1 = some id) →
+      ∀ (k : Nat) (hk : k < cs.length), ∃ id, boundId its (cs[k]).1 = some id ∧
+        (resolve its cs)[k]? = some ((cs[k]).1, id, (cs[k]).2.1, (cs[k]).2.2)
+  | [], _, k, hk => by simp at hk
+  | c :: cs, h, 0, _ => by
+    obtain ⟨id, hid⟩ := h c (by simp)
+    exact ⟨id, by simpa using hid, by simp [resolve, hid]⟩
+  | c :: cs, h, k + 1, hk => by
+    obtain ⟨id, hid⟩ := h c (by simp)
+    obtain ⟨id', h1, h2⟩ := resolve_get its cs (fun x hx => h x (mem_cons_of_mem _ hx)) k
+      (by simpa using hk)
+    exact ⟨id', by simpa using h1, by simp [resolve, hid, h2]⟩
+
+/-- the batch response of a composition with at least one request, in any complete delivery
+    order: invalid-member errors, then the entries `entriesFrom` produces for the resolved
+    deliveries `bcs`; delivery `k` resolved = (member, **that member's id in the composition**,
+    result, limit of that moment) -/
+theorem batch_entries (inc : Nat) (encLen : Id → R → Nat) (ms : List Mem)
+    (calls : List (Call R)) (hperm : calls.map (·.1) ~ reqIdx ms) (hne : reqMembers 0 ms ≠ []) :
+    ∃ (es tail : List (Entry R)) (bcs : List (BCall R)),
+      replies inc encLen ms calls = [es] ∧ es = errEntries 0 ms ++ tail ∧
+      tail = entriesFrom inc encLen 0 bcs ∧ bcs.length = calls.length ∧
+      ∀ (k : Nat) (hk : k < calls.length), ∃ id, ms[(calls[k]).1]? = some (.req id) ∧
+        bcs[k]? = some ((calls[k]).1, id, (calls[k]).2.1, (calls[k]).2.2) := by
+  obtain ⟨b, its, es, tail, hrecv', _, hrep, hes, htail, _, _, _⟩ :=
+    batch_one_reply inc encLen ms calls hperm hne
+  have hrecv := receiveBatch_of_req (R := R) ms hne
+  rw [hrecv] at hrecv'
+  simp only [RecvResult.items.injEq] at hrecv'
+  obtain ⟨hits, _⟩ := hrecv'
+  subst hits
+  have hb := deliveries_bound ms calls hperm
+  obtain ⟨rl, _, _⟩ := resolve_spec (scan (R := R) 0 ms).1 calls hb
+  refine ⟨es, tail, resolve (scan (R := R) 0 ms).1 calls, hrep, hes, htail, rl, ?_⟩
+  intro k hk
+  obtain ⟨id, hid, hget⟩ := resolve_get (scan (R := R) 0 ms).1 calls hb k hk
+  rw [boundId_scan] at hid
+  have hmem := (mem_reqMembers 0 ms _ _).1 (lookupId_mem hid)
+  exact ⟨id, by simpa using hmem.2, hget⟩
+
+/-- **batch_oversize_entry_replaced** (the text's clause on the batch response of a received
+    composition): whatever the composition, the completion order and the schedule of limits - in
+    particular whatever `max_response_size` was when the batch was received -, if the response to
+    the `k`-th completed member is larger than the positive limit in force when that result is
+    supplied, the entry answering it is the "too large" error **under that member's id**. -/
+theorem batch_oversize_entry_replaced (inc : Nat) (encLen : Id → R → Nat) (ms : List Mem)
+    (calls : List (Call R)) (hperm : calls.map (·.1) ~ reqIdx ms) (hne : reqMembers 0 ms ≠ []) :
+    ∃ es tail : List (Entry R), replies inc encLen ms calls = [es] ∧
+      es = errEntries 0 ms ++ tail ∧
+      ∀ (k : Nat) (hk : k < calls.length) (id : Id), ms[(calls[k]).1]? = some (.req id) →
+        0 < (calls[k]).2.2 → (calls[k]).2.2 < encLen id (calls[k]).2.1 →
+        tail[k]? = some (.big (calls[k]).1 id) := by
+  obtain ⟨es, tail, bcs, hrep, hes, htail, hlen, hk⟩ := batch_entries inc encLen ms calls hperm hne
+  refine ⟨es, tail, hrep, hes, ?_⟩
+  intro k hkc id hms hpos hbig
+  obtain ⟨id', hms', hget⟩ := hk k hkc
+  rw [hms] at hms'
+  simp only [Option.some.injEq, Mem.req.injEq] at hms'
+  subst hms'
+  have hkb : k < bcs.length := by omega
+  rw [getElem?_eq_getElem hkb] at hget
+  simp only [Option.some.injEq] at hget
+  have hrepl := oversize_entry_replaced inc encLen bcs k hkb
+    (by simp only [BCall.lim, hget]; exact hpos) (by simp only [BCall.lim, hget]; exact hbig)
+  have hshape := entriesFrom_get inc encLen bcs 0 k hkb
+  have hke : k < (entriesFrom inc encLen 0 bcs).length := by rw [length_entriesFrom]; exact hkb
+  rw [htail]
+  rcases hshape with h | h
+  · rw [getElem?_eq_getElem hke] at h
+    simp only [Option.some.injEq] at h
+    rw [h] at hrepl
+    simp [Entry.isReal] at hrepl
+  · rw [h, hget]
+
+/-- **limit_at_receipt_refuted.**  The variant that reads `max_response_size` once, when the
+    batch is received (`repliesSnapshot`: a closure over `limit = self.max_response_size` taken in
+    `_receive_request_batch`), violates what `batch_oversize_entry_replaced` states.  Witness =
+    the seeded three-step history: the batch `[request 1, request 2]` is received while the
+    limit is 0; the limit is lowered to 1000; member 1 supplies a 40-byte response, member 0 a
+    5041-byte one: the snapshot variant sends the 5041-byte entry unreplaced under a 1000-byte
+    maximum. -/
+theorem limit_at_receipt_refuted :
+    ∃ (lim0 : Nat) (ms : List Mem) (calls : List (Call Nat)) (es : List (Entry Nat)),
+      calls.map (·.1) ~ reqIdx ms ∧
+      repliesSnapshot lim0 2 (fun _ r => r) ms calls = [es] ∧
+      ∃ c ∈ calls, 0 < c.2.2 ∧ c.2.2 < c.2.1 ∧ ∃ id, Entry.res c.1 id c.2.1 ∈ es :=
+  ⟨0, [.req (.int 1), .req (.int 2)], [(1, 40, 1000), (0, 5041, 1000)],
+    [.res 1 (.int 2) 40, .res 0 (.int 1) 5041], by decide, by decide,
+    (0, 5041, 1000), by decide, by decide, by decide, .int 1, by decide⟩
+
+/-- non-vacuity / both directions, batches and singles.  The same history through the model of
+    the code: the 5041-byte entry is replaced under its own id.  Limit **raised** between
+    receipt (10) and supply (0 = unlimited, or 100): the code keeps the 41-byte results, the
+    snapshot variant replaces them.  Singles: received at limit 0, supplied at limit 1000 - the
+    code replaces a 5041-byte response, the snapshot variant sends it; received at limit 10,
+    supplied at limit 0 - the code sends a 41-byte response, the snapshot variant replaces it. -/
+example :
+    replies 2 (fun _ (r : Nat) => r) [.req (.int 1), .req (.int 2)] [(1, 40, 1000), (0, 5041, 1000)]
+      = [[.res 1 (.int 2) 40, .big 0 (.int 1)]] ∧
+    replies 2 (fun _ (r : Nat) => r) [.req (.int 1), .req (.int 2)] [(0, 41, 0), (1, 41, 100)]
+      = [[.res 0 (.int 1) 41, .res 1 (.int 2) 41]] ∧
+    repliesSnapshot 10 2 (fun _ (r : Nat) => r) [.req (.int 1), .req (.int 2)]
+        [(0, 41, 0), (1, 41, 100)]
+      = [[.big 0 (.int 1), .big 1 (.int 2)]] ∧
+    repliesSingle (fun _ (r : Nat) => r) (.req (.int 1)) 5041 1000 = [.big 0 (.int 1)] ∧
+    repliesSingleSnapshot 0 (fun _ (r : Nat) => r) (.req (.int 1)) 5041 1000
+      = [.res 0 (.int 1) 5041] ∧
+    repliesSingle (fun _ (r : Nat) => r) (.req (.int 1)) 41 0 = [.res 0 (.int 1) 41] ∧
+    repliesSingleSnapshot 10 (fun _ (r : Nat) => r) (.req (.int 1)) 41 0
+      = [.big 0 (.int 1)] := by decide
+
+/-- **single_limit_at_receipt_refuted.**  The same for single requests: reading the limit when
+    the request is received (`repliesSingleSnapshot`) violates `oversize_single` - received
+    while unlimited, limit 1000 when the 5041-byte result is supplied: sent unreplaced. -/
+theorem single_limit_at_receipt_refuted :
+    ∃ (lim0 lim r : Nat) (id : Id), 0 < lim ∧ lim < r ∧
+      repliesSingleSnapshot lim0 (fun _ (r : Nat) => r) (.req id) r lim = [.res 0 id r] :=
+  ⟨0, 1000, 5041, .int 1, by decide, by decide, by decide⟩
 
 /-- length of `batch_message_from_parts` for parts of the given lengths -/
 def batchLen (sep br : Nat) (lens : List Nat) : Nat := lens.sum + sep * (lens.length - 1) + br
 
 /-- the running size accounts for at least the bytes of the batch message made of the results
-    delivered so far, provided `inc` covers the separator and the brackets.  (About the results
-    only: error entries of invalid members and replacement entries are in neither side.) -/
+    delivered so far, provided `inc` covers the separator and the brackets - whatever limits
+    were in force (the running size does not depend on them).  (About the results only: error
+    entries of invalid members and replacement entries are in neither side.) -/
 theorem accounted_size_bounds_batch (sep br inc : Nat) (hs : sep ≤ inc) (hb : br ≤ inc)
     (encLen : Id → R → Nat) (calls : List (BCall R)) (hne : calls ≠ []) :
-    batchLen sep br (calls.map fun c => encLen c.2.1 c.2.2) ≤ sizeAfter inc encLen 0 calls := by
+    batchLen sep br (calls.map fun c => encLen c.2.1 c.2.2.1) ≤ sizeAfter inc encLen 0 calls := by
   unfold batchLen sizeAfter
-  have key : ∀ (l : List (BCall R)), (l.map fun c => encLen c.2.1 c.2.2 + inc).sum
-      = (l.map fun c => encLen c.2.1 c.2.2).sum + inc * l.length := by
+  have key : ∀ (l : List (BCall R)), (l.map fun c => encLen c.2.1 c.2.2.1 + inc).sum
+      = (l.map fun c => encLen c.2.1 c.2.2.1).sum + inc * l.length := by
     intro l
     induction l with
     | nil => simp
@@ -543,7 +691,7 @@ theorem accounted_size_bounds_batch (sep br inc : Nat) (hs : sep ≤ inc) (hb : 
     rw [this]; simp [Nat.mul_succ]
   omega
 
-/-! ### what is bounded in a batch response, and what is not -/
+/-! ### what is bounded in a batch response, by which limit, and what is not -/
 
 /-- encoded length of one entry of a response: a real result as `encLen` says, an error entry
     for an invalid member `errLen`, a "too large" replacement `bigLen` (both ≈ 90-100 bytes in
@@ -572,20 +720,10 @@ theorem batchLen_le_accounted (sep br inc : Nat) (hs : sep ≤ inc) (hb : br ≤
     have h1 : sep * l.length ≤ inc * l.length := Nat.mul_le_mul_right _ hs
     omega
 
-/-- **kept_results_within_limit.**  Unconditionally (any deliveries; invalid members and
-    replaced entries do not matter): the real results that are *kept* in a batch response,
-    joined as a batch of their own, are not larger than the limit.  This - not the size of the
-    whole batch response - is what `max_response_size` bounds for a batch. -/
-theorem kept_results_within_limit (sep br inc : Nat) (hs : sep ≤ inc) (hb : br ≤ inc)
-    (max : Nat) (hmax : 0 < max) (encLen : Id → R → Nat) (errLen bigLen : Nat)
-    (calls : List (BCall R))
-    (hne : (entriesFrom max inc encLen 0 calls).filter Entry.isReal ≠ []) :
-    wireLen sep br encLen errLen bigLen ((entriesFrom max inc encLen 0 calls).filter Entry.isReal)
-      ≤ max := by
-  have hacc := real_entries_accounted max inc encLen hmax calls 0 (Nat.zero_le _)
-  have hall : ∀ e ∈ (entriesFrom max inc encLen 0 calls).filter Entry.isReal, e.isReal = true :=
-    fun e he => (mem_filter.1 he).2
-  generalize (entriesFrom max inc encLen 0 calls).filter Entry.isReal = l at hacc hne hall
+theorem wireLen_real_le (sep br inc : Nat) (hs : sep ≤ inc) (hb : br ≤ inc)
+    (encLen : Id → R → Nat) (errLen bigLen : Nat) (l : List (Entry R)) (hne : l ≠ [])
+    (hall : ∀ e ∈ l, e.isReal = true) :
+    wireLen sep br encLen errLen bigLen l ≤ (l.map fun e => resLen encLen e + inc).sum := by
   have hmap : l.map (entryLen encLen errLen bigLen) = l.map (resLen encLen) := by
     apply map_congr_left
     intro e he
@@ -597,6 +735,80 @@ theorem kept_results_within_limit (sep br inc : Nat) (hs : sep ≤ inc) (hb : br
   simp only [map_map] at h
   have : ((fun x => x + inc) ∘ resLen encLen) = fun e => resLen encLen e + inc := rfl
   rw [this] at h
+  exact h
+
+/-- **kept_results_within_limit** (limits changing freely).  If the result of delivery `j` is
+    **kept** while a positive limit `L` is in force at that moment, then the real results the
+    batch response contains **up to and including that entry**, joined as a batch of their own,
+    are not larger than `L` - whatever the limits were at the earlier deliveries (0, smaller,
+    larger) and at receipt, whatever was replaced, whatever invalid members there are.  Nothing
+    is claimed from the limits of *other* moments: a result kept under an earlier, larger limit
+    stays in the response when the limit is lowered afterwards (then the entries supplied after
+    the lowering are replaced - `oversize_batch`).  This - not the size of the whole batch
+    response - is what `max_response_size` bounds for a batch. -/
+theorem kept_results_within_limit (sep br inc : Nat) (hs : sep ≤ inc) (hb : br ≤ inc)
+    (encLen : Id → R → Nat) (errLen bigLen : Nat) (calls : List (BCall R)) (j : Nat)
+    (hj : j < calls.length) (hlim : 0 < (calls[j]).lim)
+    (hreal : ((entriesFrom inc encLen 0 calls)[j]'(by rw [length_entriesFrom]; exact hj)).isReal
+      = true) :
+    wireLen sep br encLen errLen bigLen
+      (((entriesFrom inc encLen 0 calls).take (j + 1)).filter Entry.isReal) ≤ (calls[j]).lim := by
+  have hje : j < (entriesFrom inc encLen 0 calls).length := by rw [length_entriesFrom]; exact hj
+  have hsize : sizeAfter inc encLen 0 (calls.take (j + 1)) ≤ (calls[j]).lim := by
+    have h := oversize_batch inc encLen calls j hj
+    rw [hreal] at h
+    have h0 : ((calls[j]).lim == 0) = false := by simp; omega
+    simpa [h0] using h.symm
+  have hmem : (entriesFrom inc encLen 0 calls)[j] ∈
+      ((entriesFrom inc encLen 0 calls).take (j + 1)).filter Entry.isReal := by
+    rw [mem_filter]
+    refine ⟨?_, hreal⟩
+    rw [List.mem_take_iff_getElem]
+    exact ⟨j, by omega, rfl⟩
+  have hne : ((entriesFrom inc encLen 0 calls).take (j + 1)).filter Entry.isReal ≠ [] :=
+    ne_nil_of_mem hmem
+  have hw := wireLen_real_le sep br inc hs hb encLen errLen bigLen _ hne
+    (fun e he => (mem_filter.1 he).2)
+  have hacc := real_entries_le_size inc encLen (calls.take (j + 1)) 0
+  rw [← entriesFrom_take] at hacc
+  omega
+
+/-- with the same hypotheses, more is within the limit of that moment: **all** the results
+    supplied up to and including delivery `j` (kept or replaced), joined as a batch of their
+    own - the running size the code compares contains them all. -/
+theorem supplied_results_within_limit (sep br inc : Nat) (hs : sep ≤ inc) (hb : br ≤ inc)
+    (encLen : Id → R → Nat) (calls : List (BCall R)) (j : Nat)
+    (hj : j < calls.length) (hlim : 0 < (calls[j]).lim)
+    (hreal : ((entriesFrom inc encLen 0 calls)[j]'(by rw [length_entriesFrom]; exact hj)).isReal
+      = true) :
+    batchLen sep br ((calls.take (j + 1)).map fun c => encLen c.2.1 c.2.2.1) ≤ (calls[j]).lim := by
+  have hsize : sizeAfter inc encLen 0 (calls.take (j + 1)) ≤ (calls[j]).lim := by
+    have h := oversize_batch inc encLen calls j hj
+    rw [hreal] at h
+    have h0 : ((calls[j]).lim == 0) = false := by simp; omega
+    simpa [h0] using h.symm
+  have hne : calls.take (j + 1) ≠ [] := by
+    intro h
+    have := congrArg List.length h
+    rw [length_take] at this
+    simp only [length_nil] at this
+    omega
+  have := accounted_size_bounds_batch sep br inc hs hb encLen (calls.take (j + 1)) hne
+  omega
+
+/-- **kept_results_within_constant_limit** (the statement for a limit that does not change while
+    the batch is in flight, unchanged from the constant-limit model): unconditionally (any
+    deliveries; invalid members and replaced entries do not matter) **all** the real results
+    kept in the batch response, joined as a batch of their own, are not larger than the limit. -/
+theorem kept_results_within_constant_limit (sep br inc : Nat) (hs : sep ≤ inc) (hb : br ≤ inc)
+    (max : Nat) (hmax : 0 < max) (encLen : Id → R → Nat) (errLen bigLen : Nat)
+    (calls : List (BCall R)) (hconst : ∀ c ∈ calls, c.lim = max)
+    (hne : (entriesFrom inc encLen 0 calls).filter Entry.isReal ≠ []) :
+    wireLen sep br encLen errLen bigLen ((entriesFrom inc encLen 0 calls).filter Entry.isReal)
+      ≤ max := by
+  have hacc := real_entries_accounted max inc encLen hmax calls 0 hconst (Nat.zero_le _)
+  have hw := wireLen_real_le sep br inc hs hb encLen errLen bigLen _ hne
+    (fun e he => (mem_filter.1 he).2)
   omega
 
 theorem errEntries_not_real : ∀ (i : Nat) (ms : List Mem),
@@ -606,78 +818,129 @@ theorem errEntries_not_real : ∀ (i : Nat) (ms : List Mem),
     cases m <;> simp [errEntries, Entry.isReal, errEntries_not_real (i + 1) ms]
 
 /-- **batch_kept_results_within_limit.**  The same for the batch response of any composition
-    in any completion order: whatever invalid members it has and whatever was replaced, the real
-    results it contains, as a batch of their own, are not larger than the limit. -/
+    in any completion order under any schedule of limits: if the entry answering the `k`-th
+    completed member is its real result and a positive limit `L` was in force when it was
+    supplied, the real results among the first `k + 1` entries of the results part, as a batch
+    of their own, are not larger than `L`. -/
 theorem batch_kept_results_within_limit (sep br inc : Nat) (hs : sep ≤ inc) (hb : br ≤ inc)
-    (max : Nat) (hmax : 0 < max) (encLen : Id → R → Nat) (errLen bigLen : Nat) (ms : List Mem)
-    (calls : List (Call R)) (hperm : calls.map (·.1) ~ reqIdx ms) (hne : reqMembers 0 ms ≠ [])
-    (es : List (Entry R)) (hrep : replies max inc encLen ms calls = [es])
+    (encLen : Id → R → Nat) (errLen bigLen : Nat) (ms : List Mem)
+    (calls : List (Call R)) (hperm : calls.map (·.1) ~ reqIdx ms) (hne : reqMembers 0 ms ≠ []) :
+    ∃ es tail : List (Entry R), replies inc encLen ms calls = [es] ∧
+      es = errEntries 0 ms ++ tail ∧ tail.length = calls.length ∧
+      ∀ (k : Nat) (hk : k < calls.length), 0 < (calls[k]).2.2 →
+        (∃ e, tail[k]? = some e ∧ e.isReal = true) →
+        wireLen sep br encLen errLen bigLen ((tail.take (k + 1)).filter Entry.isReal)
+          ≤ (calls[k]).2.2 := by
+  obtain ⟨es, tail, bcs, hrep, hes, htail, hlen, hk⟩ := batch_entries inc encLen ms calls hperm hne
+  refine ⟨es, tail, hrep, hes, by rw [htail, length_entriesFrom, hlen], ?_⟩
+  intro k hkc hpos ⟨e, he, hreal⟩
+  obtain ⟨id, _, hget⟩ := hk k hkc
+  have hkb : k < bcs.length := by omega
+  rw [getElem?_eq_getElem hkb] at hget
+  simp only [Option.some.injEq] at hget
+  have hke : k < (entriesFrom inc encLen 0 bcs).length := by rw [length_entriesFrom]; exact hkb
+  rw [htail, getElem?_eq_getElem hke] at he
+  simp only [Option.some.injEq] at he
+  have := kept_results_within_limit sep br inc hs hb encLen errLen bigLen bcs k hkb
+    (by simp only [BCall.lim, hget]; exact hpos) (by rw [he]; exact hreal)
+  simp only [BCall.lim, hget] at this
+  rw [htail]
+  exact this
+
+/-- **batch_kept_results_within_constant_limit.**  If the limit does not change while the batch
+    is in flight (every delivery sees the same positive `max`): whatever invalid members the
+    composition has and whatever was replaced, **all** the real results the batch response
+    contains, as a batch of their own, are not larger than `max`. -/
+theorem batch_kept_results_within_constant_limit (sep br inc : Nat) (hs : sep ≤ inc)
+    (hb : br ≤ inc) (max : Nat) (hmax : 0 < max) (encLen : Id → R → Nat) (errLen bigLen : Nat)
+    (ms : List Mem) (calls : List (Call R)) (hperm : calls.map (·.1) ~ reqIdx ms)
+    (hne : reqMembers 0 ms ≠ []) (hconst : ∀ c ∈ calls, c.2.2 = max)
+    (es : List (Entry R)) (hrep : replies inc encLen ms calls = [es])
     (hkept : es.filter Entry.isReal ≠ []) :
     wireLen sep br encLen errLen bigLen (es.filter Entry.isReal) ≤ max := by
   obtain ⟨b, its, es', tail, _, _, hrep', hes, htail, _, _, _⟩ :=
-    batch_one_reply max inc encLen ms calls hperm hne
+    batch_one_reply inc encLen ms calls hperm hne
   have : es = es' := by rw [hrep] at hrep'; simpa using hrep'
   subst this
   have hf : es.filter Entry.isReal = tail.filter Entry.isReal := by
     rw [hes, filter_append, errEntries_not_real, nil_append]
   rw [hf] at hkept ⊢
   rw [htail] at hkept ⊢
-  exact kept_results_within_limit sep br inc hs hb max hmax encLen errLen bigLen _ hkept
+  exact kept_results_within_constant_limit sep br inc hs hb max hmax encLen errLen bigLen _
+    (resolve_lims its (· = max) calls hconst) hkept
 
-/-- non-vacuity: limit 78, `[invalid ×3, request 76 bytes]`: the one kept result as a batch of
-    its own is 78 bytes (the whole response is 381) -/
+/-- non-vacuity.  Constant limit 78, `[invalid ×3, request 76 bytes]`: the one kept result as a
+    batch of its own is 78 bytes (the whole response is 381).  Changing limit: two 30-byte
+    results; the first is supplied while the limit is 100 and kept, then the limit is lowered
+    to 40: the second (running size 64 > 40) is replaced; the kept result, as a batch of its own,
+    is 32 ≤ 100 bytes - and also ≤ 40, but that is not claimed: with the second limit 20 the first
+    result (32 bytes as a batch) stays in the response all the same. -/
 example :
     wireLen 2 2 (fun _ (_ : Nat) => 76) 99 94
       (([.err 0 .null, .err 1 .null, .err 2 .null, .res 3 (.int 1) 0] : List (Entry Nat)).filter
-        Entry.isReal) = 78 := by decide
+        Entry.isReal) = 78 ∧
+    replies 2 (fun _ (_ : Nat) => 30) [.req (.int 1), .req (.int 2)] [(0, 0, 100), (1, 0, 40)]
+      = [[.res 0 (.int 1) 0, .big 1 (.int 2)]] ∧
+    replies 2 (fun _ (_ : Nat) => 30) [.req (.int 1), .req (.int 2)] [(0, 0, 100), (1, 0, 20)]
+      = [[.res 0 (.int 1) 0, .big 1 (.int 2)]] ∧
+    wireLen 2 2 (fun _ (_ : Nat) => 30) 99 94 [.res 0 (.int 1) 0] = 32 := by decide
 
 /-- **batch_within_limit** (the whole-batch bound, with its exact side-condition): a batch
     response **without error entries for invalid members** in which **no entry was replaced**
-    is not larger than `max_response_size`. -/
+    is not larger than the (positive) `max_response_size` in force **when the last result was
+    supplied** - whatever the limits were before (for a limit that never changes: not larger
+    than that limit). -/
 theorem batch_within_limit (sep br inc : Nat) (hs : sep ≤ inc) (hb : br ≤ inc)
-    (max : Nat) (hmax : 0 < max) (encLen : Id → R → Nat) (errLen bigLen : Nat) (ms : List Mem)
+    (encLen : Id → R → Nat) (errLen bigLen : Nat) (ms : List Mem)
     (calls : List (Call R)) (hperm : calls.map (·.1) ~ reqIdx ms) (hne : reqMembers 0 ms ≠ [])
     (hnoinv : errEntries (R := R) 0 ms = [])
-    (es : List (Entry R)) (hrep : replies max inc encLen ms calls = [es])
-    (hreal : ∀ e ∈ es, e.isReal = true) :
-    wireLen sep br encLen errLen bigLen es ≤ max := by
-  obtain ⟨b, its, es', tail, _, _, hrep', hes, htail, _, htl, _⟩ :=
-    batch_one_reply max inc encLen ms calls hperm hne
+    (es : List (Entry R)) (hrep : replies inc encLen ms calls = [es])
+    (hreal : ∀ e ∈ es, e.isReal = true)
+    (c : Call R) (hlast : calls.getLast? = some c) (hpos : 0 < c.2.2) :
+    wireLen sep br encLen errLen bigLen es ≤ c.2.2 := by
+  obtain ⟨es', tail, hrep', hes, htl, hk⟩ :=
+    batch_kept_results_within_limit sep br inc hs hb encLen errLen bigLen ms calls hperm hne
   have : es = es' := by rw [hrep] at hrep'; simpa using hrep'
   subst this
   rw [hnoinv, nil_append] at hes
   subst hes
-  have hfilter : es.filter Entry.isReal = es := filter_eq_self.2 hreal
-  have hcne : es ≠ [] := by
-    intro h
-    have hl : calls.length = (reqMembers 0 ms).length := by
-      have := hperm.length_eq; simpa [reqIdx] using this
-    rw [h] at htl
-    exact hne (List.length_eq_zero_iff.1 (by simp at htl; omega))
-  have h := kept_results_within_limit sep br inc hs hb max hmax encLen errLen bigLen
-    (resolve its calls) (by rw [← htail, hfilter]; exact hcne)
-  rw [← htail, hfilter] at h
-  exact h
+  have hcpos : 0 < calls.length := by
+    cases calls with
+    | nil => simp at hlast
+    | cons _ _ => simp
+  rw [getLast?_eq_getElem?, getElem?_eq_getElem (by omega)] at hlast
+  simp only [Option.some.injEq] at hlast
+  have hkl : calls.length - 1 < es.length := by omega
+  have := hk (calls.length - 1) (by omega) (by rw [hlast]; exact hpos)
+    ⟨es[calls.length - 1], getElem?_eq_getElem hkl, hreal _ (getElem_mem hkl)⟩
+  rw [hlast] at this
+  have htake : es.take (calls.length - 1 + 1) = es := by
+    apply take_of_length_le; omega
+  rw [htake, filter_eq_self.2 hreal] at this
+  exact this
 
 /-- the unrestricted statement one might read into "a response larger than the maximum is
-    replaced": every batch response sent under a limit is within the limit -/
+    replaced": every batch response sent while a positive limit is in force is within it -/
 def batch_within_limit_full (R : Type) : Prop :=
-  ∀ (sep br inc : Nat), sep ≤ inc → br ≤ inc → ∀ (max : Nat), 0 < max →
+  ∀ (sep br inc : Nat), sep ≤ inc → br ≤ inc →
     ∀ (encLen : Id → R → Nat) (errLen bigLen : Nat) (ms : List Mem) (calls : List (Call R)),
       calls.map (·.1) ~ reqIdx ms → reqMembers 0 ms ≠ [] →
-      ∀ es, replies max inc encLen ms calls = [es] →
-        wireLen sep br encLen errLen bigLen es ≤ max
+      ∀ es, replies inc encLen ms calls = [es] →
+        ∀ c, calls.getLast? = some c → 0 < c.2.2 →
+          wireLen sep br encLen errLen bigLen es ≤ c.2.2
 
-/-- **batch_within_limit_full_fails.**  It does not hold.  Witness (measured on the real code,
-    JSON-RPC 2.0): limit 78, batch `[5, 6, 7, request]` whose result encodes to 76 bytes: the
-    running size is 78, the result is **kept**, the response is 381 bytes (three 99-byte error
-    entries for the invalid members are not accounted). -/
+/-- **batch_within_limit_full_fails.**  It does not hold, already for a limit that never
+    changes.  Witness (measured on the real code, JSON-RPC 2.0): limit 78, batch
+    `[5, 6, 7, request]` whose result encodes to 76 bytes: the running size is 78, the result is
+    **kept**, the response is 381 bytes (three 99-byte error entries for the invalid members are
+    not accounted). -/
 theorem batch_within_limit_full_fails : ¬ batch_within_limit_full Nat := by
   intro h
-  have := h 2 2 2 (by decide) (by decide) 78 (by decide) (fun _ _ => 76) 99 94
-    [.invalid .null, .invalid .null, .invalid .null, .req (.int 1)] [(3, 0)]
+  have := h 2 2 2 (by decide) (by decide) (fun _ _ => 76) 99 94
+    [.invalid .null, .invalid .null, .invalid .null, .req (.int 1)] [(3, 0, 78)]
     (by decide) (by decide)
     [.err 0 .null, .err 1 .null, .err 2 .null, .res 3 (.int 1) 0] (by decide)
+    (3, 0, 78) (by decide) (by decide)
   revert this
   decide
 
@@ -685,21 +948,22 @@ theorem batch_within_limit_full_fails : ¬ batch_within_limit_full Nat := by
     the response is 381 > 78 bytes although nothing was replaced; without invalid members, limit
     10 and three requests, every entry is replaced and the response is 288 > 10 bytes. -/
 example :
-    replies 78 2 (fun _ (_ : Nat) => 76)
-        [.invalid .null, .invalid .null, .invalid .null, .req (.int 1)] [(3, 0)]
+    replies 2 (fun _ (_ : Nat) => 76)
+        [.invalid .null, .invalid .null, .invalid .null, .req (.int 1)] [(3, 0, 78)]
       = [[.err 0 .null, .err 1 .null, .err 2 .null, .res 3 (.int 1) 0]] ∧
     wireLen 2 2 (fun _ (_ : Nat) => 76) 99 94
       [.err 0 .null, .err 1 .null, .err 2 .null, .res 3 (.int 1) 0] = 381 ∧
-    replies 10 2 (fun _ (_ : Nat) => 41) [.req (.int 1), .req (.int 2), .req (.int 3)]
-        [(0, 0), (1, 0), (2, 0)]
+    replies 2 (fun _ (_ : Nat) => 41) [.req (.int 1), .req (.int 2), .req (.int 3)]
+        [(0, 0, 10), (1, 0, 10), (2, 0, 10)]
       = [[.big 0 (.int 1), .big 1 (.int 2), .big 2 (.int 3)]] ∧
     wireLen 2 2 (fun _ (_ : Nat) => 41) 99 94
       [.big 0 (.int 1), .big 1 (.int 2), .big 2 (.int 3)] = 288 := by decide
 
-/-- non-vacuity of `batch_within_limit`: two 10-byte results under limit 24 are both kept and
-    the response is exactly 24 bytes -/
+/-- non-vacuity of `batch_within_limit`: two 10-byte results, the first supplied while the
+    limit is 12, the second after it was raised to 24: both kept, the response is exactly 24
+    bytes - within the limit of the last delivery (not within the earlier 12: not claimed). -/
 example :
-    replies 24 2 (fun _ (_ : Nat) => 10) [.req (.int 1), .req (.int 2)] [(1, 0), (0, 0)]
+    replies 2 (fun _ (_ : Nat) => 10) [.req (.int 1), .req (.int 2)] [(1, 0, 12), (0, 0, 24)]
       = [[.res 1 (.int 2) 0, .res 0 (.int 1) 0]] ∧
     wireLen 2 2 (fun _ (_ : Nat) => 10) 99 94 [.res 1 (.int 2) 0, .res 0 (.int 1) 0] = 24 := by
   decide
@@ -842,13 +1106,15 @@ def taskRes (es : List (Ev R)) : Res R := (firstOutcome es).getD .busy
     response leaves, when the last task delivers; entry `k` of its results part answers member
     `order[k]` under that member's own id and carries the handler's result if the handler
     returned before the timeout fired, the SERVER_BUSY error if the timeout fired first (or the
-    "too large" replacement). -/
-theorem session_batch_one_reply (max inc : Nat) (encLen : Id → Res R → Nat) (ms : List Mem)
+    "too large" replacement).  `lims m` is the value of `max_response_size` when member `m`'s
+    task calls `send_result` - any schedule. -/
+theorem session_batch_one_reply (inc : Nat) (encLen : Id → Res R → Nat) (ms : List Mem)
     (order : List Nat) (hperm : order ~ reqIdx ms) (hne : reqMembers 0 ms ≠ [])
-    (evs : Nat → List (Ev R)) (hdone : ∀ m ∈ order, firstOutcome (evs m) ≠ none) :
+    (evs : Nat → List (Ev R)) (hdone : ∀ m ∈ order, firstOutcome (evs m) ≠ none)
+    (lims : Nat → Nat) :
     (∀ m ∈ order, ∀ msg, sendCalls (trun true msg .handling (evs m)).2 = [taskRes (evs m)]) ∧
     ∃ es tail : List (Entry (Res R)),
-      replies max inc encLen ms (order.map fun m => (m, taskRes (evs m))) = [es] ∧
+      replies inc encLen ms (order.map fun m => (m, taskRes (evs m), lims m)) = [es] ∧
       es = errEntries 0 ms ++ tail ∧
       ∀ (k : Nat) (hk : k < order.length), ∃ id,
         ms[order[k]]? = some (.req id) ∧
@@ -863,10 +1129,10 @@ theorem session_batch_one_reply (max inc : Nat) (encLen : Id → Res R → Nat) 
     cases hf : firstOutcome (evs m) with
     | none => exact absurd hf (hdone m hm)
     | some x => rfl
-  · have hmap : (order.map fun m => (m, taskRes (evs m))).map (·.1) = order := by
+  · have hmap : (order.map fun m => (m, taskRes (evs m), lims m)).map (·.1) = order := by
       simp [map_map, Function.comp_def]
     obtain ⟨_, _, es, tail, _, _, hrep, hes, _, _, _, hk⟩ :=
-      batch_one_reply max inc encLen ms (order.map fun m => (m, taskRes (evs m)))
+      batch_one_reply inc encLen ms (order.map fun m => (m, taskRes (evs m), lims m))
         (by rw [hmap]; exact hperm) hne
     refine ⟨es, tail, hrep, hes, ?_⟩
     intro k hk'
@@ -879,7 +1145,7 @@ theorem session_batch_one_reply (max inc : Nat) (encLen : Id → Res R → Nat) 
 example :
     let ms : List Mem := [.req (.int 1), .notif, .req (.int 3)]
     let evs : Nat → List (Ev Nat) := fun m => if m = 0 then [.timeout] else [.ret 5, .timeout, .written]
-    replies 0 2 (fun _ _ => 9) ms ([2, 0].map fun m => (m, taskRes (evs m)))
+    replies 2 (fun _ _ => 9) ms ([2, 0].map fun m => (m, taskRes (evs m), 0))
       = [[.res 2 (.int 3) (.value 5), .res 0 (.int 1) .busy]] := by decide
 
 /-! ## ties to the source (facts regenerated from /repo on every run) -/
@@ -902,12 +1168,39 @@ open Aiorpcx.Facts.C02 in
     own is replaced after an overflowing one, as in `replies`). -/
 theorem facts_batch_accounting :
     invalidMembersAccounted = some (!decide (
-      replies 12 2 (fun _ (_ : Nat) => 10) [.invalid .null, .req (.int 1)] [(1, 0)]
+      replies 2 (fun _ (_ : Nat) => 10) [.invalid .null, .req (.int 1)] [(1, 0, 12)]
         = [[.err 0 .null, .res 1 (.int 1) 0]])) ∧
     overflowSticky = some (decide (
-      replies 17 2 (fun _ (r : Nat) => r) [.req (.int 1), .req (.int 2)] [(0, 100), (1, 10)]
+      replies 2 (fun _ (r : Nat) => r) [.req (.int 1), .req (.int 2)] [(0, 100, 17), (1, 10, 17)]
         = [[.big 0 (.int 1), .big 1 (.int 2)]])) := by
   decide
+
+/-- the model on one row of the two-member probe: which of the two entries are real -/
+def batchProbe (inc l1 l2 b c : Nat) : List Bool :=
+  (entriesFrom inc (fun _ (r : Nat) => r) 0 [(0, .int 1, l1, b), (1, .int 2, l2, c)]).map
+    Entry.isReal
+
+open Aiorpcx.Facts.C02 in
+/-- **facts_limit_at_supply.**  The code under test was RUN with `max_response_size` changed
+    between receipt and supply and between the supplies (every combination of 0 / a limit the
+    response does not fit under / a limit it fits under, at receipt and at each supply: lowered,
+    raised, 0 <-> positive): for a single request (9 histories) and for a two-request batch (64
+    histories) what is kept and what is replaced is what the model says with the limit **of the
+    moment the result is supplied** - the limit at receipt (first component of a row) is not even
+    an input of the model. -/
+theorem facts_limit_at_supply :
+    singleLimitTable.length = 9 ∧ batchLimitTable.length = 64 ∧
+    (∀ row ∈ singleLimitTable,
+      (sendResultSingle row.2.1 (fun _ (r : Nat) => r) (.int 7) row.2.2.1).isReal = row.2.2.2) ∧
+    (∀ row ∈ batchLimitTable,
+      batchProbe (sizeIncrement.getD 0) row.2.2.2.1 row.2.2.2.2.1 row.2.1 row.2.2.1
+        = [row.2.2.2.2.2.1, row.2.2.2.2.2.2]) := by
+  decide
+
+/-- non-vacuity of the probe grid: among the rows the model expects both outcomes for the
+    same limit at receipt (so a snapshot taken at receipt cannot agree with all of them) -/
+example : batchProbe 2 40 60 0 50 = [true, false] ∧ batchProbe 2 40 60 0 0 = [true, true] ∧
+    batchProbe 2 40 60 41 0 = [false, true] := by decide
 
 /-- **mixed_batch_is_request_batch.**  A list message with at least one member that does not
     look like a response is handled as a request batch (so that its requests are answered and
